@@ -162,7 +162,7 @@ class Check(object):
 
 
 TOOL_ASSUMPTIONS = [
-    'T0-T7: the absent external xmlsec1 behaves as specified in spec/XmlSecTool.tla (first '
+    'T0-T8: the absent external xmlsec1 behaves as specified in spec/XmlSecTool.tla (first '
     'ds:Signature in document order below the --node-id element is the operated one; references '
     'resolve by registered ID; only the --pubkey-cert-pem key is trusted); the stand-in '
     'harness/standin/xmlsec1 implements that contract and is itself checked against TLC-computed '
